@@ -222,12 +222,15 @@ fn render_ws(ws: &Ws) -> Vec<SrcFile> {
                     let arg = t.nest.iter().find(|(outer, _)| *outer == k).map(|(_, inner)| spelled[*inner].clone()).unwrap_or_else(|| "u32".to_string());
                     ty = format!("{ty}<{arg}>");
                 }
-                let wrapped = match k % 5 {
+                // positions 5 and 6: the reference is not the last type argument of its container
+                let wrapped = match (k + ti) % 7 {
                     0 => ty,
                     1 => format!("Vec<{ty}>"),
                     2 => format!("Option<{ty}>"),
                     3 => format!("HashMap<String, {ty}>"),
-                    _ => format!("Box<[{ty}; 2]>"),
+                    4 => format!("Box<[{ty}; 2]>"),
+                    5 => format!("HashMap<{ty}, String>"),
+                    _ => format!("Option<HashMap<{ty}, Vec<u32>>>"),
                 };
                 body.push_str(&format!("    pub r{k}: {wrapped},\n"));
             }
@@ -617,7 +620,7 @@ pub fn run(ctx: &Ctx) -> (Spec, Report) {
     }
     let spec = Spec {
         level: "exploration",
-        rule: format!("{n} generated workspaces of 1-5 crates (names drawn from 10, with dashes and underscores, half of them beginning with the name of a third-party crate typeshare ignores - time-utils, http_types, stdx, ring-buffer, synapse; a third of them with an extra `<first crate>.v2` directory, whose name differs from an existing crate only behind a dot), 1-3 files per crate at depth 1-4 under src, 1-3 types per file, references to earlier types in the same file, the same crate (crate:: / super:: / use self:: / use crate::) and other crates (use single / grouped / nested / glob, qualified and deep qualified paths), a fifth of the types generic and referred to with a type argument that is itself a reference in any of those forms (`other::Page<third::models::deep::Item>`), wrapped in nothing / Vec / Option / HashMap / Box<[..; 2]>, a sixth of the types serde-renamed, optional prefix and a foreign type mapping; real binary with --output-folder and, as twin, --output-file; TypeScript, Kotlin, Swift, Python (Scala and Go have no multi-file support); oracle: file set and names from the crate rule, every type in exactly its crate's file, union of definitions equals the single-file run, TS/Kotlin imports resolve to the defining file and name only defined types; plus one crate reached through 13 spellings of its path (from the workspace, from inside the crate, from inside src, through `..`, absolute) whose output file must be named after the directory above src; distinct = (language, crate count, prefix?) and (language, reference form, renamed?)"),
+        rule: format!("{n} generated workspaces of 1-5 crates (names drawn from 10, with dashes and underscores, half of them beginning with the name of a third-party crate typeshare ignores - time-utils, http_types, stdx, ring-buffer, synapse; a third of them with an extra `<first crate>.v2` directory, whose name differs from an existing crate only behind a dot), 1-3 files per crate at depth 1-4 under src, 1-3 types per file, references to earlier types in the same file, the same crate (crate:: / super:: / use self:: / use crate::) and other crates (use single / grouped / nested / glob, qualified and deep qualified paths), a fifth of the types generic and referred to with a type argument that is itself a reference in any of those forms (`other::Page<third::models::deep::Item>`), wrapped in nothing / Vec / Option / HashMap value / Box<[..; 2]> / HashMap key (not the last type argument), a sixth of the types serde-renamed, optional prefix and a foreign type mapping; real binary with --output-folder and, as twin, --output-file; TypeScript, Kotlin, Swift, Python (Scala and Go have no multi-file support); oracle: file set and names from the crate rule, every type in exactly its crate's file, union of definitions equals the single-file run, TS/Kotlin imports resolve to the defining file and name only defined types; plus one crate reached through 13 spellings of its path (from the workspace, from inside the crate, from inside src, through `..`, absolute) whose output file must be named after the directory above src; distinct = (language, crate count, prefix?) and (language, reference form, renamed?)"),
         assumptions: vec![
             "`use .. as ..` renames are outside the stated domain and not generated".into(),
             "extra imports (a glob brings in every type of the crate) are allowed as long as the module defines them".into(),
